@@ -205,6 +205,8 @@ E10 = dict(name='every subset of the registered leaves, features on/off (deploy 
 K18C = _o('oracle: CouplesAnalysis.MergeResults cell by cell (re-indexed sums, unions of touched files)', 'k18c', 8000, 300000,
           'pairs of couples results over 5 file names and 6 identities (shared e-mails / names), rows of the unmatched author, '
           'results as produced by Finalize and as read back from the binary format')
+E10S = _o('oracle: DeployItem on a synthetic registry (closure of the enabled providers, every registration order of gated and plain providers)', 'e10s', 4000, 200000,
+          '12 plumbing types over 6 entities, 3 leaves, requirements drawn per case, features set before and by the leaves')
 RNH = _o('oracle: RenameAnalysis under load (time budgets ending inside the similarity passes)', 'krnh', 240, 12000,
          '5-75 deleted x 5-75 added files of 0.3-1.5 KB (unrelated / moved with edits / look-alike), budgets 1ns..25ms..unlimited: re-pairing, exact duplicates, no panic, no deadlock')
 RNHR = _o('oracle: RenameAnalysis under load, race detector build (data races between the two matchers end the case)', 'krnh.race', 40, 2000,
@@ -243,7 +245,7 @@ PROPS = {
     'C07': dict(corr=[MG, DAG]),
     'C08': dict(corr=[DAG, RBC, RBW, PFORK]),
     'C09': dict(corr=[RUN, HB, HBF, K09B, E01]),
-    'C10': dict(level='translation_validation', corr=[RES, E10]),
+    'C10': dict(level='translation_validation', corr=[RES, E10, E10S]),
     'C11': dict(corr=[LN, K11D, E11, E11W]),
     'C12': dict(corr=[LN, LNC, ONES, RUN, E14]),
     'C13': dict(corr=[RN, RNH, RNHR]),
